@@ -931,9 +931,9 @@ def p_compilerDirective(p):
     elif directive == 'namespace':
         # parse the param to separate out namespace from other wbemuri pieces
         m = WBEM_URI_NAMESPACEPATH_REGEXP.match(param)
-        ns_type = m.group(1) or None
-        host = m.group(2) or None
-        namespace = m.group(3) or None
+        ns_type = m.group(1) if m else None
+        host = m.group(2) if m else None
+        namespace = m.group(3) if m else None
         if m is None or ns_type or host or namespace is None:
             raise MOFParseError(
                 msg=_format(
